@@ -9,7 +9,7 @@ VARIABLES w, step, hist        \* hist: the requests made so far (only when Emit
 Init == w = InitW(NM, NP) /\ step = 0 /\ hist = <<>>
 FocusActs == [multictl |-> {"attach", "connect", "saveload", "set_map", "feed", "attach_none"},
               patterns |-> {"attach", "attach_end", "attach_none", "attach_pattern", "saveload", "bulk_edit", "set_note_mod", "get_note_mod"}]
-Allowed(act) == Focus = "all" \/ act \in FocusActs[Focus]
+Allowed(act) == IF Focus = "all" THEN TRUE ELSE act \in FocusActs[Focus]
 Do(act, args, r) == /\ Allowed(act) /\ step < MaxStep /\ \E q \in r.posts : w' = q /\ step' = step + 1
                     /\ hist' = IF Emit THEN Append(hist, [act |-> act, args |-> args, outcome |-> r.outcome, ret |-> r.ret, post |-> w', posts |-> SetToSeq(r.posts)]) ELSE hist
 (* evaluated on the states of the simulated behaviour: prints the complete history once the behaviour is MaxStep long *)
